@@ -172,7 +172,7 @@ def _rt_child(fn, tier, seed, q):
 
 def _merge_desugar(results):
     """what pyvc.desugar rewrote in the module text that was verified (comprehensions -> map/filter/lambda, for-loops ->
-    body function + __pyvc_for__, one-argument str(x) calls -> __pyvc_str__(x)); everything else is compiled as it stands in the tree under check"""
+    body function + __pyvc_for__, one-argument str(x) calls -> __pyvc_str__(x), subscript loads -> __pyvc_getitem__, in / not in -> __pyvc_in__: same operations that refuse abstract markers); everything else is compiled as it stands in the tree under check"""
     out = {}
     for r in results:
         for mod, st in (r.get("desugared") or {}).items():
